@@ -313,6 +313,11 @@ pub fn rich_value(unique: u64, shape: u32) -> Value {
         }
     }
     fn node(rng: &mut crate::rng::Rng, depth: u32, budget: &mut u32) -> Value {
+        // An explicit `None` as an element / field / map value more often than the leaf
+        // distribution alone gives it (absent and `None` are different things).
+        if depth < 4 && rng.chance(1, 6) {
+            return Value::None;
+        }
         if depth == 0 || *budget == 0 || rng.chance(1, 3) {
             return leaf(rng);
         }
